@@ -400,11 +400,29 @@ class LoadEngine(object):
             w.probe("load_args_from_context")
             w.ops[-1] += " [context: %s]" % ", ".join(sorted(ctx_args))
 
+        # one call in ten goes to the public flood-fill method itself (one
+        # unreliable fill per binary: no count, no retry, no start signal;
+        # `wait` defaults to True there)
+        direct = not heal and t.draw(10) == 0
+        if direct:
+            w.probe("direct_flood_fill")
+            w.ops[-1] = "flood_fill_aplx: " + w.ops[-1]
+            for k in ("n_tries", "app_start_delay", "use_count"):
+                kwargs.pop(k, None)
+                ctx_args.pop(k, None)
+            if "wait" not in kwargs and "wait" not in ctx_args:
+                if wait:
+                    w.probe("flood_fill_wait_defaulted")
+                else:
+                    kwargs["wait"] = False
+            m.app_start_latency = 0.0
+
         def call_load():
+            fn = c.mc.flood_fill_aplx if direct else c.mc.load_application
             if not ctx_args:
-                return c.mc.load_application(*args, **kwargs)
+                return fn(*args, **kwargs)
             with c.mc(**ctx_args):
-                return c.mc.load_application(*args, **kwargs)
+                return fn(*args, **kwargs)
         status, val = rigcall(
             w, (c.scp.TimeoutError, c.mcmod.SpiNNakerLoadingError),
             call_load)
@@ -474,6 +492,41 @@ class LoadEngine(object):
                                   kind="unrequested-core-changed")
         unchanged_outside()
         m.on_count = None
+        if direct:
+            for name, sels in per_binary.items():
+                if len(sels) != 1 and status == "ok":
+                    w.violate("B", "flood_fill_aplx sent %d fills of %s"
+                              % (len(sels), name), kind="too-many-fills")
+            final = ST_WAIT if wait else ST_RUN
+            n_loaded = 0
+            for name, cores in want.items():
+                for (x, y, p) in sorted(cores):
+                    cr = m.chips[(x, y)].cores[p]
+                    now = m.chips[(x, y)].core_snapshot()[p]
+                    if loaded(x, y, p, name, final):
+                        n_loaded += 1
+                    elif now != before[(x, y)][p] or (
+                            status == "ok" and self.miss_rate == 0 and
+                            c.clean()):
+                        w.violate("R", "flood_fill_aplx (wait=%r): core (%d, "
+                                  "%d, %d) is in state %d, app %d, %s - "
+                                  "neither loaded as asked nor left alone"
+                                  % (wait, x, y, p, cr.state, cr.app_id,
+                                     "right image" if cr.image ==
+                                     binaries[name] else "wrong/no image"),
+                                  kind="flood-fill-result")
+            if status != "ok" and (heal or c.clean()):
+                w.violate("L", "flood_fill_aplx raised %s although no SCP "
+                          "fault is active" % type(val).__name__,
+                          kind="clean-timeout")
+            w.ops[-1] += " -> %s (%d of %d cores loaded)" % (
+                "ok" if status == "ok" else type(val).__name__, n_loaded,
+                len(requested))
+            w.ops_completed += 1
+            if t.draw(2):
+                rigcall(w, (c.scp.TimeoutError,), c.mc.send_signal, "stop",
+                        app_id)
+            return
         if status == "ok" and use_count and self.count_coincidence:
             w.ops[-1] += " -> ok (count coincidence: not judged)"
             w.ops_completed += 1
